@@ -22,9 +22,6 @@ structure CommArith (K : Type) [Add K] [Mul K] [OfNat K 0] : Prop where
   mul_comm : ∀ a b : K, a * b = b * a
   zero_add : ∀ a : K, 0 + a = a
 
-theorem CommArith.ofCommRing (K : Type) [CommRing K] : CommArith K :=
-  ⟨fun a b => by ring, fun a b => by ring, fun a => by ring⟩
-
 /-- Contract of an out-of-place body `_call(x)`: returns an object holding `φ(x)` (a new one,
 or an existing one such as `x` itself — `RealPart` on a real space returns `x`) and writes to
 no existing object. -/
@@ -85,6 +82,10 @@ def oopLeaf {K : Type} (f : Vec K → Vec K) : Leaf K :=
 end OdlModel.C03
 
 open OdlModel.Prox OdlModel.Call OdlModel.Call.Lemmas OdlModel.C03
+
+/-- Every commutative ring (ℤ, ℚ, ℝ, ℂ, …) satisfies the arithmetic laws the theorems use. -/
+theorem C03.comm_arith_of_comm_ring (K : Type) [CommRing K] : CommArith K :=
+  ⟨fun a b => by ring, fun a b => by ring, fun a => by ring⟩
 
 /-- Out-of-place call, for EVERY well-formed expression tree (unbounded depth), every store,
 every `x`, every junk in the temporaries: `op(x)` returns an object holding `⟦e⟧(x)` and writes
@@ -556,7 +557,7 @@ example : let e : Op Int :=
     AllOK e ∧ e.fn = false ∧
       ∃ s', callI (fun _ _ => 99) e 0 0 ⟨fun _ _ => 5, 1⟩ = .ok 0 s' ∧ s'.mem 0 0 = 93 := by
   intro e
-  have hK := CommArith.ofCommRing Int
+  have hK := C03.comm_arith_of_comm_ring Int
   have hd := C03.default_leaves_ok hK (fun _ => (0 : Int)) id (fun v => v 0)
   have hok : AllOK e := by
     have h1 := C03.scale_leaf_ok (2 : Int)
@@ -939,7 +940,7 @@ example : EntriesOK (K := Int) 2 1 true (broadcastEntries [.leaf (scalingLeaf 2)
     · exact ⟨h2, fun _ => rfl, by decide, by decide⟩
     · exact ⟨h3, fun _ => rfl, by decide, by decide⟩
   refine ⟨hb, hd, hr, ?_⟩
-  obtain ⟨done, s', es, vs, _⟩ := C03.pso_in_place (CommArith.ofCommRing Int) (fun _ _ => 99) 1 2
+  obtain ⟨done, s', es, vs, _⟩ := C03.pso_in_place (C03.comm_arith_of_comm_ring Int) (fun _ _ => 99) 1 2
     (fun j => j) (fun _ => 2) _ hr
     (⟨fun b _ => if b = 0 then 5 else if b = 1 then 7 else 1000, 3⟩ : St Int)
     (fun j hj => by simp; omega) (fun i _ => by simp) (fun i i' hi hi' _ => by omega)
